@@ -124,6 +124,8 @@ type Env struct {
 	Vars   map[string]*Value
 	Parent *Env
 	ID     int
+	// SelfName: for a call activation, the name under which the function can refer to itself
+	SelfName string
 }
 
 func (e *Env) lookup(name string) (*Value, *Env) {
